@@ -15,3 +15,6 @@ func PipeIDsInUse() []uint32 { return core.VerifPipeIDsInUse() }
 
 // SetYield installs the function called at every named yield point.
 func SetYield(f func(point string)) { verifyield.Set(f) }
+
+// SetPipeIDNext positions the pipe id allocator's counter.
+func SetPipeIDNext(next uint32) { core.VerifSetPipeIDNext(next) }
